@@ -23,6 +23,7 @@ type c01Params struct {
 	Prologue string // "", "expired-hit", "expired-hfp"
 	Bounds   vsched.Bounds
 	MaxExecs int64
+	Ticks    []int64 // clock steps offered (default 1 and T+1)
 }
 
 func c01Scenario(c *Ctx, p c01Params) Sched {
@@ -36,9 +37,13 @@ func c01Scenario(c *Ctx, p c01Params) Sched {
 		cfg = env.BasicConfig(config.CacheConfig{Store: "fault://c01"})
 		cfgKey = "c01store"
 	}
+	ticks := []int64{1, int64(p.T) + 1}
+	if p.Ticks != nil {
+		ticks = p.Ticks
+	}
 	return Sched{
 		Name:     p.Name,
-		Opt:      vsched.Options{Ticks: []int64{1, int64(p.T) + 1}},
+		Opt:      vsched.Options{Ticks: ticks},
 		Bounds:   p.Bounds,
 		MaxExecs: p.MaxExecs,
 		Setup: func() ([]func(), func(*vsched.Exec) *vsched.Violation, func() string) {
@@ -183,6 +188,7 @@ func init() {
 		q := []c01Params{
 			{Name: "burst3-cold", Threads: 3, Reqs: 1, T: 1, Bounds: vsched.Bounds{Preempt: 2, Tick: 2, Data: -1, Total: 3}},
 			{Name: "burst2x2-other", Threads: 2, Reqs: 2, Other: true, T: 1, Bounds: vsched.Bounds{Preempt: 2, Tick: 1, Data: -1, Total: 2}},
+			{Name: "burst3-cold-slow-fetch", Threads: 3, Reqs: 1, T: 7200, Ticks: []int64{31, 3600}, Bounds: vsched.Bounds{Preempt: 2, Tick: 1, Data: -1, Total: 3}},
 			{Name: "burst3-expired-hit", Threads: 3, Reqs: 1, T: 1, Prologue: "expired-hit", Bounds: vsched.Bounds{Preempt: 2, Tick: 1, Data: -1, Total: 2}},
 			{Name: "burst3-expired-hfp", Threads: 3, Reqs: 1, T: 1, Prologue: "expired-hfp", Bounds: vsched.Bounds{Preempt: 2, Tick: 1, Data: -1, Total: 2}},
 			{Name: "burst3-pass-in-flight-across-period-end", Threads: 3, Reqs: 1, T: 1, Prologue: "hfp-in-period", Bounds: vsched.Bounds{Preempt: 2, Tick: 2, Data: -1, Total: 4}},
@@ -192,6 +198,7 @@ func init() {
 		if c.Thorough() {
 			q = []c01Params{
 				{Name: "burst3-cold", Threads: 3, Reqs: 1, T: 1, Bounds: vsched.Bounds{Preempt: 3, Tick: 2, Data: -1, Total: 4}},
+				{Name: "burst3-cold-slow-fetch", Threads: 3, Reqs: 1, T: 7200, Ticks: []int64{31, 3600}, Bounds: vsched.Bounds{Preempt: 3, Tick: 2, Data: -1, Total: 4}},
 				{Name: "burst4-cold", Threads: 4, Reqs: 1, T: 1, Bounds: vsched.Bounds{Preempt: 2, Tick: 2, Data: -1, Total: 3}},
 				{Name: "burst2x2-other", Threads: 2, Reqs: 2, Other: true, T: 1, Bounds: vsched.Bounds{Preempt: 3, Tick: 2, Data: -1, Total: 3}},
 				{Name: "burst3-expired-hit", Threads: 3, Reqs: 1, T: 1, Prologue: "expired-hit", Bounds: vsched.Bounds{Preempt: 3, Tick: 2, Data: -1, Total: 3}},
